@@ -1,11 +1,12 @@
 """C11 -- trainer, scorer and guesser agree on every string's OMEN level."""
 from pyvc.runner import Prop, Bounded, script_replay
 import contracts.omen_level as ol
+import contracts.omen_loader as oml
 
 PROP = Prop(
     'C11', "Trainer, scorer and guesser agree on every string's OMEN level",
-    functions=[ol.EV + ':find_omen_level', ol.SC + '.parse'],
-    lemmas=ol.agree_lemmas,
+    functions=[ol.EV + ':find_omen_level', ol.SC + '.parse', oml.IO + ':_load_ngrams#ip', oml.IO + ':_load_ngrams#cp'],
+    lemmas=lambda: ol.agree_lemmas() + oml.lemmas(),
     level='other',
     replay=script_replay('replay/omen.py', default_fn='TRIPLE'),
     bounded=[Bounded('C11.bounded.triple', 'replay/omen.py', args=['--fn', 'TRIPLE'],
